@@ -254,4 +254,32 @@ theorem replay_paced_nonrecursive_partial (fs0 : FS) (hwf : fs0.WF) (full : Bool
   rw [h1, h2]
   exact replay_nonrecursive_partial fs0 hwf full bs.flatten h3 h4
 
+
+/-- "a directory may be renamed again right after it arrived": `rename o q1; rename q1 q2` read as one batch, `o` a
+    directory TREE outside the watched tree, `q1`, `q2` free names in directories of the tree.  The reader never sees the
+    tree under `q1` (the first MOVED_TO finds nothing there any more); it is watched, with all it holds, under `q2`.  The
+    stream differs from the two drained operations' (no synthetic created events for the stay at `q1`; the descendants are
+    announced by synthetic moved events `q1/.. -> q2/..`) but replays to the same tree.  Also a burst kind of `pacedOK`. -/
+theorem burst_arrived_and_renamed_partial (fs0 : FS) (hwf : fs0.WF) (full : Bool) (pre : List Op) (o q1 q2 : P)
+    (hv : allValid (Sys.start fs0 true full) pre = true) (hroot : Op.rmdir ["W"] ∉ pre)
+    (hb : moveInRenameB ((Sys.start fs0 true full).run pre).1 [.rename o q1, .rename q1 q2] = true) :
+    sameTree (replay (treeW ((Sys.start fs0 true full).run pre).1.fs)
+               (((Sys.start fs0 true full).run pre).1.burst [.rename o q1, .rename q1 q2]).2)
+             (treeW (((Sys.start fs0 true full).run pre).1.burst [.rename o q1, .rename q1 q2]).1.fs) := by
+  obtain ⟨inv, hs, hc⟩ := after_history fs0 hwf full pre hv hroot
+  exact (paced_step _ _ inv hs hc (okBurst_of_check _ _ (by simp [okBurstB, hb]))).2.2.2
+
+/-- non-vacuity: a populated tree moved in and renamed at once -/
+example :
+    let k0 : Kern := ⟨[], 1, 1⟩
+    let fs0 := [Op.mkdir ["O", "d"], .create ["O", "d", "b"], .mkdir ["O", "d", "dd"], .create ["O", "d", "dd", "a"], .mkdir ["W", "x"]].foldl
+      (fun fs op => (kernelOp fs k0 op).1) FS.init
+    let s := Sys.start fs0 true false
+    moveInRenameB s [.rename ["O", "d"] ["W", "d"], .rename ["W", "d"] ["W", "x", "e"]] = true ∧
+    (s.burst [.rename ["O", "d"] ["W", "d"], .rename ["W", "d"] ["W", "x", "e"]]).2.map PEv.toEvent =
+      [⟨.DirCreatedEvent, "W/d", "", false⟩, ⟨.DirModifiedEvent, "W", "", false⟩,
+       ⟨.DirMovedEvent, "W/d", "W/x/e", false⟩, ⟨.DirModifiedEvent, "W", "", false⟩, ⟨.DirModifiedEvent, "W/x", "", false⟩,
+       ⟨.FileMovedEvent, "W/d/b", "W/x/e/b", true⟩, ⟨.DirMovedEvent, "W/d/dd", "W/x/e/dd", true⟩,
+       ⟨.FileMovedEvent, "W/d/dd/a", "W/x/e/dd/a", true⟩] := by decide +kernel
+
 end WD.C01
